@@ -46,12 +46,13 @@ def shard(shard_i, nshards, tier, seed):
     A = [z3.Int(f'g1r{i}') for i in range(2)]
     Bv = [z3.Int(f'g2r{i}') for i in range(2)]
     V = z3.Int('variant')
+    V2 = z3.Int('variant_two_rule_grammars')
     variants = ['plain', 'terminal_conflict', 'same_terminal', 'terminal_named_like_pair', 'extra_nonterminal_named_like_pair',
                 'edges_inserted_in_reverse_order', 'terminal_named_like_other_nonterminal']
     mine = [k for k in range(len(C1)) if k % nshards == shard_i]
     with lib.Functions() as fns:
         for a0 in mine:
-            rng_ = [z3.And(v >= 0, v < n) for v, n in ((A[1], len(C1s)), (Bv[0], len(C2)), (Bv[1], len(C2s)), (V, len(variants)))]
+            rng_ = [z3.And(v >= 0, v < n) for v, n in ((A[1], len(C1s)), (Bv[0], len(C2)), (Bv[1], len(C2s)), (V, len(variants)), (V2, 2))]
             eng = symx.Engine(assumptions=[A[0] == a0] + rng_)
 
             def body():
@@ -59,7 +60,7 @@ def shard(shard_i, nshards, tier, seed):
                 r2 = [C2[symx.choose(Bv[0], 0, len(C2), free=True)], C2s[symx.choose(Bv[1], 0, len(C2s), free=True)]]
                 # label variants are explored on top of every pair of first rules; with two rules per grammar only the plain variant (quick tier)
                 if r1[1] is not None or r2[1] is not None:
-                    var = 'plain' if TIER[0] == 'quick' else ['plain', 'edges_inserted_in_reverse_order'][symx.choose(V, 0, 2, free=True)]
+                    var = 'plain' if TIER[0] == 'quick' else ['plain', 'edges_inserted_in_reverse_order'][symx.choose(V2, 0, 2, free=True)]
                 else:
                     var = variants[symx.choose(V, 0, len(variants), free=True)]
                 g1 = {'start': 'X', 'rules': [r for r in r1 if r], 'terminals': {'t1': ['L']}}
